@@ -163,3 +163,8 @@ func vhHoldRepo(s *Server, name string) func() {
 	}
 	return store.HoldRepoForTest(st, name)
 }
+
+// vhOddNumerals: numeric-looking parameter values outside what a signed 64-bit parse
+// accepts, or in unusual notations.
+var vhOddNumerals = []string{"", "9223372036854775807", "9223372036854775808", "18446744073709551615", "18446744073709551616",
+	"-9223372036854775808", "-9223372036854775809", "+5", "-0", "0x10", "1e3", " 5", "5.0", "1_0", "\u0663"}
